@@ -49,7 +49,7 @@ RULE = ("histories of 3-25 events (defmacro / require in the shapes {bare, :as, 
         "like core macros; two fixture macro modules and a package with a submodule (export lists via setv/export, "
         "private names), in memory or on disk. Non-trivial = history in which some name is bound in >= 2 namespaces "
         "(extra, a local scope, another local scope, module, core); distinct by module text + fixtures.")
-FLOOR = {"quick": 500, "thorough": 800}
+FLOOR = {"quick": 120, "thorough": 800}
 BUDGET = {"quick": 35, "thorough": 480}
 CASE_TIMEOUT = 30
 NEEDS_EVENTS = True
@@ -698,6 +698,7 @@ FINDING_MIRROR = "local-macros-variable-mirror"
 
 
 def run_case(case):
+    G.reset_state(MODNAMES, path_markers=("/c35-",))
     res = judge(case)
     if res["ok"] is False and res.get("mirror"):
         # attribution of the local-macros finding (local macros are mirrored in Python variables
@@ -804,18 +805,18 @@ def judge(case):
                 res.update(ok=False, why=f"_hy_macros has {key!r} (macro tagged {got[key]!r}) at snapshot {k}; no "
                                          f"defmacro/require shape before it brings that name in")
                 return res
-    # 3. warnings
+    # 3. warnings: decided on the category (RuntimeWarning) and on the macro's name appearing in the
+    # message, not on the wording
     shadow = []
     for w in rec:
-        msg = str(w.message)
-        m = re.search(r"New macro `(.*)` will shadow the core macro", msg)
-        if m and issubclass(w.category, RuntimeWarning):
-            shadow.append(mangle(m.group(1)))
+        if issubclass(w.category, RuntimeWarning):
+            shadow.append(str(w.message))
         else:
             res["classes"].append("other-warning:" + w.category.__name__)
-    if sorted(shadow) != sorted(r.warns):
-        res.update(ok=False, why=f"core-shadow warnings for {sorted(shadow)}, expected {sorted(r.warns)} "
-                                 f"(one per defmacro/require that binds a core macro's name while the pragma is on)")
+    why = match_warnings(shadow, r.warns)
+    if why:
+        res.update(ok=False, why=why + " (one RuntimeWarning naming the macro per defmacro/require that binds a core "
+                                       "macro's name while the pragma is on)")
         return res
     res["classes"].append("warnings:%d" % min(len(shadow), 5))
     # secondary: local_state_stack back to depth 1 on every compiler used
@@ -825,6 +826,32 @@ def judge(case):
     except Exception:
         res["classes"].append("secondary:local-state-skipped")
     return res
+
+
+def match_warnings(messages, expected):
+    """messages: texts of the recorded RuntimeWarnings; expected: mangled names, one per shadowing event.
+    Accept iff there are as many warnings as events and they can be paired so that each warning's
+    text contains its macro's name (as written or mangled) as a token."""
+    import re
+
+    def names(m):
+        return {m} | {n for n in CORE_LIKE if mangle(n) == m}
+
+    def mentions(msg, m):
+        return any(re.search(r"(?<![\w\-])" + re.escape(n) + r"(?![\w\-])", msg) for n in names(m))
+
+    if len(messages) != len(expected):
+        return f"{len(messages)} core-shadow RuntimeWarning(s) {messages}, expected {len(expected)} for {sorted(expected)}"
+
+    def pair(i, free):
+        if i == len(expected):
+            return True
+        return any(mentions(messages[j], expected[i]) and pair(i + 1, free - {j}) for j in free)
+
+    expected = sorted(expected)
+    if not pair(0, frozenset(range(len(messages)))):
+        return f"RuntimeWarnings {messages} do not name the shadowing macros {expected}"
+    return None
 
 
 def _unmangled_core(case, site):
